@@ -316,10 +316,21 @@ def array_abs(obj):
     if isinstance(obj, Number):
         # norm squares its input, which underflows/overflows for tiny/huge numbers
         return np.abs(obj)
-    return np.linalg.norm(obj)
+    return safe_norm(obj)
+
+def array_norm(obj):
+    """
+    Frobenius norm of a number, vector, matrix or tensor.
+
+    >>> float(array_norm(MathArray([3, 4])))
+    5.0
+    >>> array_norm(MathArray([1e-170, 0])) > 0
+    True
+    """
+    return safe_norm(obj)
 
 ARRAY_ONLY_FUNCTIONS = {
-    'norm': np.linalg.norm,
+    'norm': array_norm,
     'abs': array_abs,
     'trans': np.transpose,
     'det': has_one_square_input('det')(np.linalg.det),
@@ -413,7 +424,7 @@ def safe_norm(x):
     """
     if isinstance(x, Number):
         return abs(x)
-    scale = np.max(np.abs(x)) if np.size(x) else 0
+    scale = float(np.max(np.abs(x))) if np.size(x) else 0
     if 1e-100 < scale < 1e100 or scale == 0 or not np.isfinite(scale):
         return np.linalg.norm(x)
     return scale * np.linalg.norm(np.asarray(x) / scale)
